@@ -57,6 +57,24 @@ def gen(rng, tier):
             if min(d['pu'], d['pv']) < 2:
                 continue
             out.append(Case(rng.choice(['hodograph-surface', 'tangent-normal']), None, dict(shape=d, u=u, v=v)))
+    # hodograph surfaces of shapes without C0 knots (those hit the recorded finding F-02b), tangents of
+    # curves, list variants of tangent / normal
+    k = 0
+    while k < (12 if tier == 'quick' else 150):
+        d = S.rand_surface(rng, rational=False, maxp=3, max_interior=2, max_mult=1)
+        if min(d['pu'], d['pv']) < 2:
+            continue
+        u, v = S.rand_params(rng, d)
+        out.append(Case('hodograph-surface', None, dict(shape=d, u=u, v=v)))
+        k += 1
+    for _ in range(16 if tier == 'quick' else 200):
+        d = S.rand_curve(rng, maxp=5)
+        us = [S.rand_params(rng, d)[0] for _ in range(rng.randint(1, 3))]
+        out.append(Case('tangent-curve', None, dict(shape=d, us=us)))
+    for _ in range(10 if tier == 'quick' else 120):
+        d = S.rand_surface(rng, maxp=3, max_interior=2)
+        uvs = [S.rand_params(rng, d) for _ in range(rng.randint(2, 3))]
+        out.append(Case('tangent-normal-list', None, dict(shape=d, uvs=uvs)))
     return out
 
 
@@ -193,6 +211,36 @@ def oracle(c):
             got = S.eval_ref(hd, _map(d, hd, [u, v]))
             if got != want:
                 return "derivative_surface[%s] at (%s,%s) gives %s, exact %s" % (name, fr(u), fr(v), show_list(got), show_list(want))
+        return None
+    if c.kind == 'tangent-curve':
+        us = c.data['us']
+        want = [J.curve_ders(d, u, 1) for u in us]
+        single = [operations.tangent(o, q(u), normalize=False) for u in us]
+        lst = operations.tangent(o, [q(u) for u in us], normalize=False)
+        for u, w, a, b in zip(us, want, single, lst):
+            if list(a[0]) != w[0] or list(a[1]) != w[1]:
+                return "operations.tangent(curve, %s) is not (point, first derivative)" % fr(u)
+            if list(b[0]) != w[0] or list(b[1]) != w[1]:
+                return "operations.tangent(curve, [..]) differs from the single-parameter call at %s" % fr(u)
+        nn = operations.tangent(o, q(us[0]), normalize=True)
+        ln = sum(float(x) ** 2 for x in nn[1])
+        if any(x != 0 for x in want[0][1]) and abs(ln - 1.0) > 1e-12:
+            return "normalised tangent has squared length %r" % ln
+        return None
+    if c.kind == 'tangent-normal-list':
+        uvs = c.data['uvs']
+        prm = [(q(u), q(v)) for u, v in uvs]
+        tl = operations.tangent(o, prm, normalize=False)
+        nl = operations.normal(o, prm, normalize=False) if d['dim'] == 3 else None
+        for k_, (u, v) in enumerate(uvs):
+            ex = J.surface_ders(d, u, v, 1)
+            if list(tl[k_][0]) != ex[0][0] or list(tl[k_][1]) != ex[1][0] or list(tl[k_][2]) != ex[0][1]:
+                return "operations.tangent(surface, [..]) entry %d differs from the exact first derivatives" % k_
+            if nl is not None:
+                a, b = ex[1][0], ex[0][1]
+                cross = [a[1] * b[2] - a[2] * b[1], a[2] * b[0] - a[0] * b[2], a[0] * b[1] - a[1] * b[0]]
+                if list(nl[k_][0]) != ex[0][0] or list(nl[k_][1]) != cross:
+                    return "operations.normal(surface, [..]) entry %d is not (point, S_u x S_v)" % k_
         return None
     if c.kind == 'tangent-normal':
         u, v = c.data['u'], c.data['v']
